@@ -739,8 +739,8 @@ BODY_SINKS = {"Log", "ConnLog", "Event", "StatusJson", "ProvisionTag", "SerialCo
 
 
 def keydir_recreated_unrestricted(hist):
-    """known-finding class F12 (= Taint.KnownClass_keydir_recreated_unrestricted): the key directory is removed and the
-    provision deadline re-creates it before the agent is started again"""
+    """the former known-finding class F12 (repaired by fd6287b; kept for the input statistics): the key directory is
+    removed and the provision deadline re-creates it before the agent is started again"""
     removed = False
     for o in hist:
         if o[0] == "rmdir":
@@ -860,10 +860,7 @@ def run(ctx):
         c = f["case"]
         h = [tuple(o) if o[0] != "poll" else ("poll", tuple(o[1]), tuple(o[2]), o[3]) for o in c["history"]]
         if c.get("key_directory"):
-            if keydir_recreated_unrestricted(h) and "keydir_recreated_unrestricted" in known:
-                return ("F12 keydir_recreated_unrestricted: the key directory was removed while the agent ran and the provision deadline "
-                        "(write_provision_state -> try_create_folder) re-created it unrestricted; the next key is stored in it")
-            return None
+            return None        # F12 is repaired (fd6287b): a key file in an unrestricted directory is a violation again
         if "sink" not in c:
             return None
         if (not variant[0]) and c["kid"] in nonhex_kids(h) and c["sink"] in HEX_SINKS and "host_key_not_hex" in known:
@@ -898,7 +895,7 @@ def run(ctx):
             "restarts": sum(1 for h in hists for o in h if o[0] == "restart"),
             "keydir_removals": sum(1 for h in hists for o in h if o[0] == "rmdir"),
             "cancelled_signers": sum(1 for h in hists for o in h if o[0] == "cancelled_signer"),
-            "histories_in_class_F12": sum(1 for h in hists if keydir_recreated_unrestricted(h)),
+            "histories_with_keydir_recreated_by_provision_write": sum(1 for h in hists if keydir_recreated_unrestricted(h)),
             "client_requests": sum(1 for h in hists for o in h if o[0] == "client"),
             "provision_queries": sum(1 for h in hists for o in h if o[0] == "provision"),
             "status_faults": sum(1 for h in hists for o in h if o[0] == "poll" and o[1][0] != "ok"),
